@@ -191,12 +191,16 @@ impl Language for Go {
     fn write_type_alias(&mut self, w: &mut dyn Write, ty: &RustTypeAlias) -> std::io::Result<()> {
         write_comments(w, 0, &ty.comments)?;
 
+        let aliased_type = self
+            .format_type(&ty.r#type, &[])
+            .map_err(|e| std::io::Error::new(std::io::ErrorKind::Other, e))?;
         writeln!(
             w,
             "type {} {}\n",
             self.acronyms_to_uppercase(&ty.id.original),
-            self.format_type(&ty.r#type, &[])
-                .map_err(|e| std::io::Error::new(std::io::ErrorKind::Other, e))?
+            // spelled like every other reference (struct fields, variant payloads): with the
+            // configured acronyms in upper case
+            self.acronyms_to_uppercase(&aliased_type)
         )?;
 
         Ok(())
